@@ -7,12 +7,14 @@ base = json.load(open("/root/.vp/BASELINE.json"))
 want = set(base["stable_pass"])
 env = dict(os.environ)
 env.pop("FLOX_VERIF", None)
+repo = os.environ.get("BASELINE_REPO", "/repo")
+env["PYTHONPATH"] = repo
 with tempfile.TemporaryDirectory() as td:
     xml = os.path.join(td, "junit.xml")
     jobs = os.environ.get("BASELINE_JOBS", "12")
     cmd = ["/venv/bin/python", "-m", "pytest", "-ra", "-q", "-p", "no:cacheprovider", "--timeout=900",
            "--continue-on-collection-errors", f"--junitxml={xml}"] + (["-n", jobs] if jobs != "0" else [])
-    p = subprocess.run(cmd, cwd="/repo", env=env, capture_output=True, text=True)
+    p = subprocess.run(cmd, cwd=repo, env=env, capture_output=True, text=True)
     passed = set()
     for tc in ET.parse(xml).getroot().iter("testcase"):
         if not any(ch.tag in ("failure", "error", "skipped") for ch in tc):
